@@ -8,7 +8,7 @@ A case is a dict:
   answer (code, havex, havepi), synthetic(bool)
 Every random choice comes from the Rng passed in.
 """
-import sys, os
+import sys, os, re
 sys.path.insert(0, os.path.dirname(os.path.abspath(__file__)))
 from nlgen import Model, Rng, BIN_NUM, UN_NUM, REL, CNT
 from fractions import Fraction as F
@@ -19,7 +19,7 @@ OPT_OK = ['cvt:bigM=100000', 'cvt:bigm=1e4', 'acc:abs=0', 'acc:or=0', 'acc:and=1
           'acc:indle=0', 'acc:indeq=0', 'acc:indge=0', 'cvt:plapprox:reltol=0.1', 'tech:debug=0', 'cvt:mip:eps=1e-4',
           'sol:chk:feastol=1e-5', 'cvt:quadobj=0', 'cvt:quadcon=0', 'acc:max=0', 'acc:min=0', 'cvt:pre:eqresult=0']
 OPT_BAD = ['foo=1', 'frobnicate', 'acc:nosuchcon=1', 'cvt:bigM=abc', 'obj:no=x', 'cvt:names=yes', 'sol:chk:fail=1',
-           'wantsol=abc', '=3', 'tech:timing=1.5', 'tech:optionfile=/nonexistent/opts']
+           '=3', 'tech:timing=1.5', 'tech:optionfile=/nonexistent/opts']
 OPT_INVALID = ['tech:timing=9', 'tech:timing=-1', 'wantsol=16', 'wantsol=-1', 'objno=-1', 'obj:multi=5']
 WANTSOL = [0, 1, 2, 3, 4, 5, 8, 9, 15]
 
@@ -216,24 +216,17 @@ def nl_text(m, tmp_stub):
 
 
 def header_dims(nl):
-    """independent, minimal parse of a text NL header: (ncons_algebraic, nvars) or None if the
-    first ten lines are not ten lines of numbers (after the 'g' line)"""
+    """independent, minimal parse of the dimensions line of a text NL header:
+    (ncons_algebraic, nvars, nobjs) or None.  Lenient on everything else: whether the driver accepts
+    the header is observed, not predicted; these numbers only matter if a .sol is written."""
     lines = nl.split('\n')
-    if len(lines) < 11 or not lines[0].startswith('g'):
+    if len(lines) < 2 or not lines[0].startswith('g'):
         return None
     try:
-        first = lines[0][1:].split('#')[0].split()
-        if not first or not all(t.lstrip('-').isdigit() for t in first[:1]):
-            return None
         l1 = lines[1].split('#')[0].split()
-        nvars, ncons = int(l1[0]), int(l1[1])
-        nobj = int(l1[2])
-        for k in range(2, 10):
-            toks = lines[k].split('#')[0].split()
-            if not toks:
-                return None
-            for t in toks:
-                float(t)
+        nvars, ncons, nobj = int(l1[0]), int(l1[1]), int(l1[2])
+        if min(nvars, ncons, nobj) < 0:
+            return None
         return (ncons, nvars, nobj)
     except Exception:
         return None
@@ -256,3 +249,14 @@ def header_inconsistent(nl):
                 or nlc > ncons or nlo > nobjs or nlvb > min(nlvc, nlvo) or max(allv) > 10 ** 7)
     except Exception:
         return False
+
+
+def undefined_logical_cons(nl):
+    """True if the header declares more logical constraints than there are L segments in the text"""
+    L = nl.split('\n')
+    try:
+        nlog = int(L[1].split('#')[0].split()[5])
+    except Exception:
+        return False
+    have = {l for l in L[10:] if re.fullmatch(r'L\d+', l.split('#')[0].strip())}
+    return nlog > len(have)
